@@ -78,6 +78,8 @@ pub const W_RESET: u64 = 4;
 pub const W_ALL_DONE: u64 = 8;
 pub const W_TWO_STREAMS_INTERLEAVED: u64 = 16;
 pub const W_MUX_DROPPED: u64 = 32;
+/// the execution ran with every tracing span and event enabled, and spans/events were really produced
+pub const W_TRACING_ON: u64 = 64;
 
 pub fn build(cfg: &XferCfg) -> World {
     let cap = if cfg.cap == 0 { UNBOUNDED_CAP } else { cfg.cap };
